@@ -50,6 +50,9 @@ def string_kernel(ctx):
             body = text.slots[: len(text.slots) - len(tail)] if ok_tail else text.slots
             good = SymbolicBool(provn_string_literal_denotes(body, s, context_statespace()))
         ctx.check(ok_tail, "datatype / language tag is not appended outside the quotes")
+        if ctx.params.get("xcheck"):
+            res = ctx.cross_check(good, KERNELS[variant])
+            ctx.check(not any(v == "sat" for v in res.values()), "solvers disagree on the kernel query (inconclusive): %s" % res)
         ctx.check(good, "the printed string literal is not a well-formed PROV-N STRING_LITERAL denoting the source string")
     else:
         from oracles.provn_reader import Parser, ProvNSyntaxError
@@ -100,7 +103,10 @@ def provn_structure(ctx):
 
 def _kernel_shards(tier):
     n = 8 if tier == "quick" else 16
-    return [{"variant": v, "n": n} for v in range(len(KERNELS))]
+    out = [{"variant": v, "n": n} for v in range(len(KERNELS))]
+    # second-opinion solvers (z3 4.8.12 and cvc5 1.0.3 binaries) re-decide the kernel query at a smaller N
+    out += [{"variant": v, "n": 4 if tier == "quick" else 6, "xcheck": True} for v in range(len(KERNELS))]
+    return out
 
 
 def _value_shards(tier):
